@@ -61,6 +61,7 @@ type FuncContract struct {
 	Trusted     bool
 	Safety      bool
 	NoVerify    bool // contract is assumed for the body too (trusted)
+	Dead        []string // callee patterns: blocks calling these may be unreachable
 	StoreNames  []string // variables/fields whose stores are tracked as events ("before store X", stored(X))
 	Callback    string // name of a function-typed parameter that the callee invokes any number of times
 	Ghost       []GhostUpdate
@@ -103,7 +104,7 @@ type Contracts struct {
 	Errors []string
 }
 
-var keywordRe = regexp.MustCompile(`^(track|callback|ghost|spec|func|interface|requires|ensures|modifies|loop|before|after|on|forbid|inline|pure|stable|trusted|safety|noverify)\b`)
+var keywordRe = regexp.MustCompile(`^(dead|track|callback|ghost|spec|func|interface|requires|ensures|modifies|loop|before|after|on|forbid|inline|pure|stable|trusted|safety|noverify)\b`)
 var loopKeyRe = regexp.MustCompile(`^(\$[0-9$]+\.)?[0-9]+$`)
 var labelRe = regexp.MustCompile(`^([A-Za-z][A-Za-z0-9_-]*):\s+(.*)$`)
 
@@ -475,6 +476,10 @@ func (c *Contracts) loadContractFile(path, pkgPath string) {
 					Clause: Clause{Label: label, Src: "false", Expr: ast.NewIdent("false"), Pos: pos}})
 			case "callback":
 				cur.Callback = strings.TrimSpace(rest)
+			case "dead":
+				// dead PATTERN: a block that contains a call matching PATTERN may be unreachable (defensive
+				// code); every other block of the function has to be entered by some explored path
+				cur.Dead = append(cur.Dead, strings.TrimSpace(rest))
 			case "track":
 				// track store NAME...: record stores to these variables/fields as events
 				f := strings.Fields(rest)
